@@ -4,7 +4,7 @@
    also what is extracted and run against the real C++. *)
 From Coq Require Import ZArith List Bool.
 From MomoCommon Require Import GenPrelude.
-From C17 Require Gen_Leaves Leaves_Proofs SorterSearch SorterSort Search_Proofs Find_Proofs IsSorted_Proofs Sort_Proofs Radix_Proofs Checker Instance.
+From C17 Require Gen_Leaves Leaves_Proofs SorterSearch SorterSort Search_Proofs Find_Proofs IsSorted_Proofs Sort_Proofs Radix_Proofs CodeGetter Checker Instance.
 Import ListNotations.
 Local Open Scope Z_scope.
 
@@ -171,3 +171,20 @@ Theorem C17_radix_partial_digit_example :
   = Ok [(6, 5); (7, 2); (64, 4); (201, 1); (201, 1); (201, 3); (255, 6)].
 Proof. exact Instance.ex_radix_partial_digit. Qed.
 Print Assumptions C17_radix_partial_digit_example.
+
+(* RadixSorterCodeGetter for integral types (after c1e16df): the code of a signed W-bit value x is unsigned(x) xor 2^(W-1)
+   = x + 2^(W-1): an order isomorphism onto [0, 2^W). *)
+Theorem C17_signed_code_order_iso : forall W x y, 1 <= W -> - 2 ^ (W - 1) <= x < 2 ^ (W - 1) -> - 2 ^ (W - 1) <= y < 2 ^ (W - 1) ->
+  (x <= y <-> CodeGetter.code_of_signed W x <= CodeGetter.code_of_signed W y) /\ 0 <= CodeGetter.code_of_signed W x < 2 ^ W.
+Proof. exact CodeGetter.code_of_signed_order. Qed.
+Print Assumptions C17_signed_code_order_iso.
+
+(* RadixSorter<R>::Sort(begin, count) on an array of SIGNED W-bit integers (every R >= 1, every W >= 1): total, the output
+   is a permutation and the VALUES (not just the codes) are in non-decreasing order. *)
+Theorem C17_radix_sort_signed_values_sorted : forall R W vs, 1 <= R -> 1 <= W ->
+  Forall (fun v => - 2 ^ (W - 1) <= v < 2 ^ (W - 1)) vs ->
+  exists l', SorterSort.RadixSortG SorterSort.swap Z.eqb R false W (map (fun v => (CodeGetter.code_of_signed W v, v)) vs) = Ok l' /\
+    Permutation.Permutation vs (map snd l') /\
+    (forall a b, 0 <= a -> a <= b -> b < SorterSort.alen l' -> SorterSort.itm l' a <= SorterSort.itm l' b).
+Proof. exact CodeGetter.RadixSort_signed_values_sorted. Qed.
+Print Assumptions C17_radix_sort_signed_values_sorted.
